@@ -646,8 +646,16 @@ def run_time_track(run, case):
     start_dt = np.datetime64(start, "us")
     buf = io.BytesIO()
     with TdmsWriter(buf) as w:
-        w.write_segment([ChannelObject("g", "c", np.arange(n, dtype=np.int32),
-                                       {"wf_increment": inc, "wf_start_offset": off, "wf_start_time": start_dt})])
+        props = {"wf_increment": inc, "wf_start_offset": off, "wf_start_time": start_dt}
+        if n >= 2 and (n + int(abs(off))) % 3 == 0:
+            # a waveform written in two pieces carrying LabVIEW's per-write wf_samples count: the time track has
+            # len(channel) points, not wf_samples
+            k = n // 2
+            props["wf_samples"] = k
+            w.write_segment([ChannelObject("g", "c", np.arange(k, dtype=np.int32), props)])
+            w.write_segment([ChannelObject("g", "c", np.arange(k, n, dtype=np.int32), {"wf_samples": n - k})])
+        else:
+            w.write_segment([ChannelObject("g", "c", np.arange(n, dtype=np.int32), props)])
     problems = []
     for raw_ts in (False, True):
         f = TdmsFile.read(io.BytesIO(buf.getvalue()), raw_timestamps=raw_ts)
